@@ -274,6 +274,11 @@ class SpaceStubSim(DynamicOrderSimulation):
             sd = self.space_desc[a]
             entry.append((a, self._spc.canon_pt(sd[0], v) if sd is not None else "bad"))
         self.step_log.append(entry)
+        # a simulation may write into the actions it receives (DriftMoveActor does: action_dict['move'] = ...): once
+        # their canonical form is logged the received values are overwritten in place, so a wrapper that hands the
+        # same decoded object over again later shows
+        for v in action_dict.values():
+            self._spc.scribble(v)
         self.t += 1
         got = dict(entry)
         for a in range(self.n):
